@@ -19,6 +19,7 @@
 #define VF_INPUTS(X) X(unsigned char, path, [PL + 1]) X(unsigned char, from, [PL + 1]) X(unsigned char, has, ) X(unsigned char, pathkind, ) X(unsigned char, fromkind, ) X(unsigned char, opkind, ) \
     X(unsigned char, pkind, ) X(unsigned char, n, ) X(unsigned char, key, [KN][2]) X(unsigned char, gp_sel, [4]) X(unsigned char, cmp, ) X(unsigned char, dup_ok, ) X(unsigned char, fail_at, ) X(unsigned char, optext, [4])
 #include "vf.h"
+#include "vf_str.h"
 #include "vf_mem.h"
 #include "vf_strtoul.h"
 
